@@ -37,7 +37,8 @@ Check ==
 Run ==
   /\ phase = "compiled"
   /\ result' = IF ~accepted THEN "compile-error"
-               ELSE IF Known(name) /\ Entry(name).status = "notImplemented" THEN "not-implemented-error"
+               ELSE IF Known(name) /\ Entry(name).status = "notImplemented" /\ Mutant # "notImplementedYieldsValue"
+                    THEN "not-implemented-error"
                ELSE "value"
   /\ phase' = "done"
   /\ UNCHANGED <<cfg, name, count, found, accepted>>
